@@ -102,13 +102,16 @@ var c06Idents = []string{"severity", "team", "summary", "description", "runbook_
 
 func c06Selector(r *rand.Rand) string {
 	m := pick(r, c06Metrics)
-	switch r.Intn(4) {
+	switch r.Intn(5) {
 	case 0:
 		return m
 	case 1:
-		return fmt.Sprintf(`%s{job="%s"}`, m, pick(r, []string{"a", "node exporter", "api-1", "x"}))
+		return fmt.Sprintf(`%s{job="%s"}`, m, pick(r, []string{"a", "node exporter", "api-1", "x", "żółć", "日本", "x😀"}))
 	case 2:
 		return fmt.Sprintf(`%s{job=~"%s", env!="%s"}`, m, pick(r, []string{"a.+", "foo|bar"}), pick(r, []string{"dev", "prod"}))
+	case 3:
+		// non-ASCII text (2-, 3-, 4-byte characters) in FRONT of a matcher that the regexp / fragile checks report on
+		return fmt.Sprintf(`%s{job="%s", env=~"%s"}`, m, pick(r, []string{"żółć", "é", "→ x", "日本語", "😀", "aż😀→"}), pick(r, []string{"prod", "dev", "a.+", ".*"}))
 	default:
 		return fmt.Sprintf(`%s{instance='%s'}`, m, pick(r, []string{"a", "b c"}))
 	}
@@ -150,7 +153,7 @@ func c06Text(r *rand.Rand) string {
 		case 2:
 			parts = append(parts, "https://example.com/"+pick(r, c06Idents))
 		case 3:
-			parts = append(parts, pick(r, []string{"key: value", "a #b", "#", ":", "'quoted'", "\"dq\"", "back\\slash", "[x]", "{y}", "a,b", "é", "→", "a\tb", "|", ">", "-", "- x", "%", "@", "`", "*", "&a", "!t", "?"}))
+			parts = append(parts, pick(r, []string{"key: value", "a #b", "#", ":", "'quoted'", "\"dq\"", "back\\slash", "[x]", "{y}", "a,b", "é", "→", "zażółć", "日本語", "😀", "naïve 😀 →", "a\tb", "|", ">", "-", "- x", "%", "@", "`", "*", "&a", "!t", "?"}))
 		default:
 			parts = append(parts, pick(r, c06Words))
 		}
@@ -173,6 +176,9 @@ func c06Name(r *rand.Rand) string {
 			w = "X"
 		}
 		b.WriteString(strings.ToUpper(w[:1]) + w[1:])
+	}
+	if r.Intn(8) == 0 {
+		b.WriteString(pick(r, []string{"Ż", "É", "日本", "😀"})) // UTF-8 alert names are legal
 	}
 	return b.String()
 }
